@@ -419,8 +419,7 @@ def signature(case, ev, clauses):
     p = primary(clauses)
     cz = cause(clauses)
     if cz:
-        typ = "string" if ev["lit"]["q"] == "Q" else "char16"
-        return "lit:%s:%s" % (typ, cz)
+        return "lit:%s:%s" % (ev["lit"]["kind"], cz)
     if case["gen"] == "fold":
         return "fold:%s" % p
     if case["gen"] == "tree":
@@ -492,9 +491,9 @@ def run(ctx):
     ctx.extra["sensitivity"] = sens
     if not quick:
         ctx.tlc("MofTextMC", "MofTextMCBig.cfg", timeout=3000,
-                label="repaired design, strings <= 6 symbols x 8 contexts")
+                label="repaired design, strings <= 6 symbols x 4 contexts")
         ctx.tlc("MofTextMC", "MofTextMCWide.cfg", timeout=3000,
-                label="repaired design, strings <= 5 symbols x 54 contexts")
+                label="repaired design, strings <= 5 symbols x 36 contexts")
 
     # -- 2. abstract inputs ------------------------------------------------------
     cases = []
@@ -516,7 +515,7 @@ def run(ctx):
         if st["s"]:
             tlc_strings.append(list(st["s"]))
     ctx.extra["tlc_vectors_replayed"] = len(sims) + len(cex)
-    for i in range(150 if quick else 3000):
+    for i in range(150 if quick else 2000):
         cases.append({"gen": "fold", "src": "random",
                       "spec": random_fold_spec(rng, "model" if i % 2 else
                                                "real")})
@@ -529,11 +528,11 @@ def run(ctx):
     if quick:
         sweep = rng.sample(sweep, 60)
     strs += sweep
-    cases += string_units(rng, strs, 160 if quick else 4000)
+    cases += string_units(rng, strs, 160 if quick else 2500)
     cases += typed_units(rng, 1 if quick else 8)
     cases += flavor_units(rng, 12 if quick else 120)
     cases += qualnull_units(rng)
-    cases += tree_cases(rng, 150 if quick else 3000)
+    cases += tree_cases(rng, 150 if quick else 2500)
 
     # -- 3. real code + TLC verdicts -----------------------------------------------
     comp = H.Comp()
